@@ -19,6 +19,10 @@ import numpy as np
 
 from pybound import pass_harness as H
 from bqskit.compiler.compile import build_workflow
+from bqskit.compiler.compile import compile as bq_compile
+from bqskit.compiler.compiler import Compiler
+from bqskit.compiler.task import CompilationTask
+from bqskit.compiler.workflow import Workflow
 from bqskit.compiler.gateset import GateSet
 from bqskit.compiler.machine import MachineModel
 from bqskit.compiler.passdata import PassData
@@ -167,7 +171,104 @@ def compile_one(target: Any, model: MachineModel, lvl: int, seed: int,
     return c
 
 
+class SyncCompiler(Compiler):
+    """Stand-in for the runtime connection handed to compile(): a job is the
+    real CompilationTask, shipped through pickle and executed in this process
+    on the synchronous worker stand-in when its result is requested; results
+    are looked up by job id, whatever the order of the requests."""
+
+    def __init__(self) -> None:      # no processes, no sockets
+        self.jobs: dict = {}
+        self.submitted: list = []
+
+    def submit(self, circuit: Any, workflow: Any,   # type: ignore
+               request_data: bool = False, *a: Any, **kw: Any) -> Any:
+        task = CompilationTask(circuit, Workflow(workflow))
+        task.request_data = request_data
+        task = H.ship(task)
+        self.jobs[task.task_id] = task
+        self.submitted.append(task.task_id)
+        return task.task_id
+
+    def result(self, task_id: Any) -> Any:
+        H.install()
+        return H.ship(H.drive(self.jobs[task_id].run()))
+
+    def compile(self, circuit: Any, workflow: Any,  # type: ignore
+                request_data: bool = False, *a: Any, **kw: Any) -> Any:
+        return self.result(self.submit(circuit, workflow, request_data))
+
+    def close(self) -> None:
+        pass
+
+    def __del__(self) -> None:
+        pass
+
+
+def list_cases() -> dict[str, tuple[list[str], dict]]:
+    """Inputs handed to compile() as one sequence (target names; 'c:' = the
+    target as a circuit) and the keyword arguments."""
+    return {
+        'widths 1,2,2': (['u1q haar', 'u2q diagonal', 'u2q cnot reversed'], {}),
+        'widths 2,1,2,1 mixed kinds': (
+            ['s2q basis |10>', 'u1q haar', 'u2q diagonal', 'c:u1q identity'],
+            {}),
+        'widths 1,1,2 with mapping': (
+            ['u1q identity', 'u1q haar', 'c:u2q cnot reversed'],
+            {'with_mapping': True}),
+        'widths 2,1,3': (['u2q diagonal', 's1q random', 's3q ghz'], {}),
+        'one element': (['u1q haar'], {}),
+    }
+
+
+def _work_list(name: str) -> dict:
+    logging.getLogger('bqskit').setLevel(logging.ERROR)
+    t0 = time.time()
+    names, kw = list_cases()[name]
+    errs: list[str] = []
+    try:
+        tg = []
+        inputs = []
+        for nm in names:
+            t = targets()[nm.split(':')[-1]]()
+            if nm.startswith('c:'):
+                c = Circuit.from_unitary(t)
+                inputs.append(c)
+            else:
+                inputs.append(t)
+            tg.append(t)
+        comp = SyncCompiler()
+        outs = bq_compile(inputs, optimization_level=1, seed=3,
+                          compiler=comp, **kw)
+        if not isinstance(outs, list) or len(outs) != len(inputs):
+            errs.append('%d inputs, result %s' % (
+                len(inputs), type(outs).__name__ if not isinstance(
+                    outs, list) else '%d entries' % len(outs)))
+        else:
+            for i, (t, o) in enumerate(zip(tg, outs)):
+                if kw.get('with_mapping'):
+                    o, pi, pf = o
+                    n = t.num_qudits
+                    if sorted(pi) != list(range(n)) \
+                            or sorted(pf) != list(range(n)):
+                        errs.append('entry %d: mappings %s %s' % (i, pi, pf))
+                        continue
+                    if list(pi) != list(range(n)) \
+                            or list(pf) != list(range(n)):
+                        continue     # judged by C01's oracle, not here
+                model = MachineModel(t.num_qudits, None, None,
+                                     list(t.radixes))
+                e = contract(t, o, model)
+                errs += ['entry %d (%s): %s' % (i, names[i], x) for x in e]
+    except Exception as e:     # noqa: BLE001
+        errs = ['raised %s: %s' % (type(e).__name__, str(e)[:300])]
+    return {'job': ['list', name], 'errs': errs,
+            'wall': round(time.time() - t0, 1)}
+
+
 def _work(job: tuple) -> dict:
+    if job[0] == 'list':
+        return _work_list(job[1])
     logging.getLogger('bqskit').setLevel(logging.ERROR)
     tname, mname, lvl, seed, aslist = job
     t0 = time.time()
@@ -198,6 +299,7 @@ def run(repo: str, tier: str, seed: int, jobs: int) -> dict:
              if t in ('u2q haar', 's2q random', 'sys2q 2 pairs',
                       'u1qutrit haar')]
     work.sort(key=lambda w: (-w[2], w[0]))
+    work = [('list', nm) for nm in list_cases()] + work
     if jobs > 1:
         with mp.get_context('fork').Pool(min(jobs, len(work))) as pool:
             parts = pool.map(_work, work, chunksize=1)
@@ -210,7 +312,9 @@ def run(repo: str, tier: str, seed: int, jobs: int) -> dict:
             fails.append({
                 'function': key, 'kind': 'ensures',
                 'clause': p['errs'][0][:300],
-                'scenario': 'target %s, model %s, level %d, seed %d%s' % (
+                'scenario': ('compile() of the sequence "%s"' % p['job'][1])
+                if p['job'][0] == 'list' else
+                'target %s, model %s, level %d, seed %d%s' % (
                     p['job'][0], p['job'][1], p['job'][2], p['job'][3],
                     ', as a member of a list input' if p['job'][4] else ''),
                 'args': '', 'observed': '; '.join(p['errs'][:3])[:500],
@@ -221,8 +325,8 @@ def run(repo: str, tier: str, seed: int, jobs: int) -> dict:
             'nontrivial': len(parts), 'skipped': 0,
             'distinct_behaviours': len(parts), 'failures': fails[:8],
             'spec_errors': [],
-            'samples': [{'case': '%s / %s / level %d: %.1f s' % (
-                p['job'][0], p['job'][1], p['job'][2], p['wall'])}
+            'samples': [{'case': '%s: %.1f s' % (
+                ' / '.join(str(x) for x in p['job'][:3]), p['wall'])}
                 for p in parts[:4]],
             'wall_s': 0, 'exhaustive': False,
             'scope': '%d target x model x level cases: Haar, identity, '
@@ -230,15 +334,19 @@ def run(repo: str, tier: str, seed: int, jobs: int) -> dict:
                      '1-2 (thorough: 3) qubits and one qutrit; basis, '
                      'random, GHZ and W states; state systems of 1, 2, 4 '
                      'pairs; default and line/CZ models; 4 cases in the form '
-                     'compile() uses for list inputs' % len(parts),
+                     'compile() uses for list inputs; %d sequences of 1-4 '
+                     'mixed-width, mixed-kind inputs through the real '
+                     'compile() with a synchronous stand-in for the runtime '
+                     'connection (one result per input, in order)' % (
+                         len(parts), len(list_cases())),
         }],
         'wall_s': round(time.time() - t0, 2), 'coverage': {},
         'assumptions': [
             'bounded: a fixed list of small targets with fixed seeds; '
             'distance budget %.0e for synthesis_epsilon 1e-8' % BUDGET,
-            'the workflows are built by build_workflow and run in one '
-            'process on a synchronous runtime stand-in; compile()\'s own '
-            'argument handling and result ordering for list inputs are not '
-            'exercised (only the one-qubit start circuit it uses for them)',
+            'the workflows run in one process on a synchronous runtime '
+            'stand-in; compile() itself is called for the sequence cases '
+            'only (level 1, default models), with a stand-in Compiler that '
+            'executes the real CompilationTask objects it is given',
         ],
     }
